@@ -114,7 +114,13 @@ def validate_parallel(pid, module, lines, k, timeout, tag=""):
         p = f"{wd}/chunk{tag}{i}.ndjson"
         with open(p, "w") as f:
             f.write("\n".join(chunks[i]) + "\n")
-        return lib.trace_validate(module, p, pid, timeout=timeout, tag=f"tv{tag}{i}", xmx="4g")
+        # the trace specs tally their own failures (SUMMARY): a lost / garbled output line must not go unnoticed
+        for attempt in (1, 2):
+            r = lib.trace_validate(module, p, pid, timeout=timeout, tag=f"tv{tag}{i}", xmx="4g")
+            sm = [t for t in r["tuples"] if t[0] == "SUMMARY"]
+            if sm and sm[-1][1] == len(r["l1fail"]) and sm[-1][2] == len(r["drift"]):
+                return r
+        raise lib.ToolError(f"trace validation output of {module} on {p} is inconsistent with its own tally {sm}")
 
     with ThreadPoolExecutor(max_workers=k) as ex:
         res = list(ex.map(one, range(len(chunks))))
